@@ -513,8 +513,20 @@ def splice_closures(text, closure_specs):
             raise Undecided('splice: closure %d not found (function has %d closures)' % (k, len(cl)))
         b1, b2 = cl[k]
         nx = _next_code(toks, b2)
-        if toks[nx].text == '{':
+        # R13: a closure parameter pattern `|(a, b)|` becomes `|p| { let (a, b) = p; .. }` (given as `//@bind let .. ;`)
+        binds = [l.strip()[len('//@bind'):].strip() for l in head.split('\n') if l.strip().startswith('//@bind')]
+        head = '\n'.join(l for l in head.split('\n') if not l.strip().startswith('//@bind'))
+        if binds:
+            orig_pat = norm(''.join(t.text for t in toks[b1 + 1:b2]))
+            for b in binds:
+                m = re.match(r'let\s+(.*?)\s*=\s*\w+\s*;$', b)
+                if not m or norm(m.group(1)) != orig_pat:
+                    raise Undecided('splice: closure %d parameter pattern %r does not match //@bind %r' % (k, orig_pat, b))
+        if toks[nx].text == '{' and not binds:
             edits.append((b1, b2, head.strip() + ' ', None))
+        elif toks[nx].text == '{':
+            j = match_close(toks, nx)
+            edits.append((b1, b2, head.strip() + ' { ' + ' '.join(binds) + ' ', j + 1))
         else:
             # bare-expression body: ends at the ',' or ')' at depth 0
             j, depth = nx, 0
@@ -528,7 +540,7 @@ def splice_closures(text, closure_specs):
                     elif x.text == ',' and depth == 0:
                         break
                 j += 1
-            edits.append((b1, b2, head.strip() + ' { ', j))
+            edits.append((b1, b2, head.strip() + ' { ' + ' '.join(binds) + ' ', j))
     out = []
     closes = {e[3]: True for e in edits if e[3] is not None}
     skip_to = -1
